@@ -246,6 +246,8 @@ def describe(defrec, case):
          "argv": [tok(t) for t in case["argv"]], "dispatch": case["disp"], "completion": case["comp"]}
     if case.get("haspre"):
         d["earlier_parse_on_same_object"] = [tok(t) for t in case.get("pre", [])]
+        if case.get("preearly"):
+            d["earlier_parse_ran_before_the_help_command_was_declared"] = True
     return d
 
 
